@@ -13,7 +13,7 @@ mod verif_unix {
     static PTR: AtomicUsize = AtomicUsize::new(0);
     static LEN: AtomicUsize = AtomicUsize::new(0);
     static PATH_OK: AtomicUsize = AtomicUsize::new(0);
-    static OUTCOME: AtomicUsize = AtomicUsize::new(0); // 0 => Err(kind), n+1 => Ok(n)
+    static OUTCOME: AtomicUsize = AtomicUsize::new(0); // 0 => Err(kind), n+1 => Ok(n), usize::MAX => Ok(the whole datagram)
     static KIND: AtomicUsize = AtomicUsize::new(0);
     const GIVEN: &str = "/r/s.sock";
 
@@ -31,6 +31,7 @@ mod verif_unix {
         }
         match OUTCOME.load(Ordering::SeqCst) {
             0 => Err(io::Error::from(kind_of(KIND.load(Ordering::SeqCst)))),
+            usize::MAX => Ok(buf.len()),
             n => Ok(n - 1),
         }
     }
@@ -164,9 +165,9 @@ mod verif_unix {
     #[kani::stub(std::path::Path::canonicalize, canonicalize_stub)]
     fn c12_unix_emit_flush() {
         let s = ManuallyDrop::new(BufferedUnixMetricSink::with_capacity(GIVEN, fake_socket(), 8));
-        OUTCOME.store(5, Ordering::SeqCst); // the socket accepts: Ok(4)
+        OUTCOME.store(usize::MAX, Ordering::SeqCst); // the socket accepts whatever datagram it is given
         let r = s.emit(" b ");   // blanks at both ends: the sink does not trim or normalise the metric
-        assert!(matches!(r, Ok(3)), "[C06,C12] emit returns the metric's byte length");
+        assert!(matches!(r, Ok(3)), "[C06,C12,C13] emit returns the metric's byte length");
         assert!(CALLS.load(Ordering::SeqCst) == 0, "[C19] a metric that fits is buffered, nothing is sent");
         assert!(s.flush().is_ok(), "[C06] flush succeeds when the socket accepts");
         assert!(CALLS.load(Ordering::SeqCst) == 1 && LEN.load(Ordering::SeqCst) == 4, "[C06,C12,C13] flush sends what remains as ONE datagram: the whole metric (blanks included) followed by a single newline");
@@ -185,7 +186,7 @@ mod verif_unix {
     #[kani::stub(std::sync::Mutex::try_lock, try_lock_contended)]
     fn c12_unix_flush_contended() {
         let s = ManuallyDrop::new(BufferedUnixMetricSink::with_capacity(GIVEN, fake_socket(), 8));
-        OUTCOME.store(4, Ordering::SeqCst);
+        OUTCOME.store(usize::MAX, Ordering::SeqCst);
         let r = s.emit("ab");
         if r.is_ok() {
             let f = s.flush();
